@@ -448,6 +448,25 @@ def infer_partial_op(o, obj):
     return d.hugr[n].op
 
 
+def call_through_builders(o, obj):
+    """A Call / LoadFunction term obtained the way programs obtain it: the callee defined with `define_function(..., type_params=...)`
+    (declared outputs), then `call` / `load_function` with the term's instantiation and type arguments. None for other terms."""
+    from hugr.build.function import Module
+    if o["op"] not in ("Call", "LoadFunction"):
+        return None
+    poly = obj.signature
+    m = Module()
+    f = m.define_function("callee", list(poly.body.input), list(poly.body.output), type_params=list(poly.params))
+    inst = obj.instantiation
+    if o["op"] == "Call":
+        caller = m.define_function("caller", list(inst.input))
+        n = caller.call(f.parent_node, *caller.inputs(), instantiation=inst, type_args=list(obj.type_args))
+    else:
+        caller = m.define_function("caller", [])
+        n = caller.load_function(f.parent_node, instantiation=inst, type_args=list(obj.type_args))
+    return m.hugr[n].op
+
+
 def dec_op(w):
     import hugr._serialization.ops as sops
     return sops.OpType.model_validate(dict(w, parent=0)).root.deserialize()
